@@ -10,7 +10,7 @@ ANCHOR_FILES = ['include/mp/nl-reader.h', 'include/mp/solver-io.h', 'src/solver.
 
 # mechanism regions: (file, label, regex of the line that starts the function / block, occurrence index)
 REGIONS = [
-    ('include/mp/nl-reader.h', 'NLProblemBuilder::OnHeader', r'^\s*void OnHeader\(const NLHeader &h\) \{', 0),
+    ('include/mp/nl-reader.h', 'NLProblemBuilder::OnHeader', r'^\s*void OnHeader\(const NLHeader &h\) \{', 1),
     ('include/mp/nl-reader.h', 'NLProblemBuilder::resulting_nobj', r'int resulting_nobj\(int nobj_header\) const \{', 0),
     ('include/mp/nl-reader.h', 'NLProblemBuilder::NeedObj', r'bool NeedObj\(int obj_index\) const \{', 1),
     ('include/mp/nl-reader.h', 'NLProblemBuilder::resulting_obj_index', r'int resulting_obj_index\(int index\) const \{', 0),
